@@ -11,7 +11,7 @@ META = dict(
                "by implementation and reference (unforgeability is not the subject here). Hash opcodes use uninterpreted functions.",
     stubs=["hashlib sha1/sha256/ripemd160 = uninterpreted functions", "generator.verify / sec_to_public_pair inside CHECKSIG = shared symbolic oracle (C03.sig obligations)"],
     assumptions=["one-step obligations compose: a script run is a sequence of steps from states the step obligations quantify over (bounded item lengths)"],
-    outside=["stack items longer than 6 bytes in numeric positions; whole free-form programs beyond the template pipelines; taproot"],
+    outside=["stack items longer than 6 bytes in numeric positions; whole free-form programs beyond the template pipelines; taproot", "signature opcodes: more than 3 keys (4 in the thorough tier), non-minimal key/signature counts, signature and key blobs outside the stated shapes (strict-DER with 1-byte r and s / empty / 2 bytes; keys of 0, 5, 33, 34, 65 bytes with prefix in {0,2..7})"],
 )
 
 NUM1 = {139: "1ADD", 140: "1SUB", 143: "NEGATE", 144: "ABS", 145: "NOT", 146: "0NOTEQUAL"}
@@ -554,5 +554,168 @@ def _more_obligations(tier):
 _base_obligations = obligations
 
 
+# ---------------------------------------------------------------------------------------------
+# CHECKSIG / CHECKMULTISIG against the consensus matching loop, with signature validity as an arbitrary oracle
+
+_SECP_P = 2 ** 256 - 2 ** 32 - 977
+_SECP_N = 0xFFFFFFFFFFFFFFFFFFFFFFFFFFFFFFFEBAAEDCE6AF48A03BBFD25E8CD0364141
+
+
+_HASHTYPES = (0, 1, 3, 4, 0x81, 0x84)      # representatives of every class the encoding rules distinguish (undefined low / defined / undefined high, with and without ANYONECANPAY)
+_PREFIXES = (0, 2, 3, 4, 5, 6, 7)
+
+
+class _OracleGen(object):
+    """the curve as far as the signature opcodes can see it: any x decompresses (to the fake ordinates 2 / 3 by parity), and whether signature
+    (r, s) is valid for point (x, y) is an arbitrary boolean per (signature, point) - chosen by the solver, shared with the reference"""
+
+    def __init__(self, oracle):
+        self._oracle = oracle
+
+    def p(self):
+        return _SECP_P
+
+    def order(self):
+        return _SECP_N
+
+    def points_for_x(self, x):
+        return ((x, 2), (x, 3))
+
+    def verify(self, public_pair, val, sig_pair):
+        return self._oracle(sig_pair[0], public_pair[0], public_pair[1])
+
+
+def sigops(ctx, op, n_keys, n_sigs, sigversion="witness_v0", key_len=33, short_sig=False, lean=False):
+    """one CHECKSIG / CHECKMULTISIG(VERIFY) instruction.  Signatures: strict-DER blobs with r = index (concrete, identifies the signature),
+    symbolic s and hash-type byte, or the empty blob (or a 2-byte blob no DER parser accepts).  Keys: 33 or 65 bytes with a SYMBOLIC prefix
+    byte and x = index.  Validity of (signature i, point) is an arbitrary boolean."""
+    ScriptError = imp("pycoin.coins.SolutionChecker").ScriptError
+    flags = ctx.sym_int("flags", 0, 0xFFFF)
+    sv = cs.WITNESS_V0 if sigversion == "witness_v0" else cs.BASE
+    if sv == cs.BASE:
+        ctx.assume((flags & (cs.MINIMALIF | cs.WITNESS_PUBKEYTYPE)) == 0)      # pycoin's SolutionChecker clears them outside segwit, as consensus ignores them there
+    op_count = ctx.sym_int("op_count", 0, 201)
+    if lean:
+        # multi-signature shapes: the matching loop is the subject; flags limited to those the loop and the encodings look at, the op count to the limit's neighbourhood
+        ctx.assume((flags & ~(cs.STRICTENC | cs.NULLFAIL | cs.NULLDUMMY | cs.WITNESS_PUBKEYTYPE | cs.DERSIG) & 0xFFFF) == 0)
+        ctx.assume(sym_or(op_count == 0, op_count == 200 - n_keys, op_count == 201 - n_keys))
+    table = {}
+
+    def oracle(r, x, y):
+        k = (int(r), int(x), int(y))
+        if k not in table:
+            try:
+                table[k] = bool(truth(ctx.sym_bool("valid.sig%d.x%d.y%d" % k)))
+            except BaseException:
+                if ctx.symbolic:
+                    raise
+                table[k] = False
+        return table[k]
+
+    sigs = []
+    for i in range(n_sigs):
+        shape = ctx.choose("sig%d.shape" % i, ["der", "empty"] + (["short"] if short_sig else []))
+        if shape == "der":
+            sv_ = ctx.sym_int("sig%d.s" % i, 1, 0x7F)
+            ht = ctx.sym_int("sig%d.hashtype" % i, 0, 255)
+            ctx.assume(sym_or(*[ht == v for v in (_HASHTYPES if not lean else ((1, 4) if i == 0 else (1,)))]))
+            sigs.append(B([0x30, 6, 2, 1, i + 1, 2, 1, sv_, ht]))
+        elif shape == "empty":
+            sigs.append(b"")
+        else:
+            sigs.append(ctx.sym_bytes("sig%d.short" % i, 2))
+    keys = []
+    for j in range(n_keys):
+        pre = ctx.sym_int("key%d.prefix" % j, 0, 255)
+        ctx.assume(sym_or(*[pre == v for v in (_PREFIXES if not lean else (((2, 3, 5) if key_len == 33 else (4, 6, 5)) if j == 0 else ((2,) if key_len == 33 else (4,))))]))
+        body = bytes(31) + bytes([j + 1])
+        if key_len == 33:
+            keys.append(cat(B([pre]), body))
+        elif key_len == 65:
+            ypar = ctx.choose("key%d.yparity" % j, [0, 1])
+            keys.append(cat(B([pre]), body, bytes(31) + bytes([100 + 2 * j + ypar])))
+        elif key_len == 0:
+            keys.append(b"")
+        else:
+            keys.append(cat(B([pre]), bytes(key_len - 1)))
+
+    def num_item(k):
+        return b"" if k == 0 else bytes([k])
+    if op in (172, 173):
+        stack = [sigs[0], keys[0]]
+    else:
+        dummy = ctx.sym_bytes("dummy", ctx.choose("dummy.len", [0, 1]))
+        stack = [dummy] + sigs + [num_item(n_sigs)] + keys + [num_item(n_keys)]
+    script = bytes([op])
+
+    def ref_check_sig(sig, pk, code, sigversion_):
+        its = items_of(sig)
+        if len(its) != 9:
+            return False                      # empty, or a blob the lax DER parser rejects
+        kb = items_of(pk)
+        if len(kb) == 33:
+            if not bool(truth(sym_or(kb[0] == 2, kb[0] == 3))):
+                return False                  # CPubKey::IsValid / secp256k1_ec_pubkey_parse: only 02 / 03 start a 33-byte key
+            y = 2 if bool(truth(kb[0] == 2)) else 3
+        elif len(kb) == 65:
+            y = kb[64]
+            ok = sym_or(kb[0] == 4, sym_and(kb[0] == 6, (y & 1) == 0), sym_and(kb[0] == 7, (y & 1) == 1))
+            if not bool(truth(ok)):
+                return False                  # hybrid keys must carry the matching parity
+        else:
+            return False
+        return oracle(its[4], kb[32], y)
+
+    st = cs.State(stack=list(stack), altstack=[], vf_exec=[], op_count=op_count, code_hash_pos=0)
+    checker = cs.Checker(check_sig=ref_check_sig)
+    try:
+        ref_pc = cs.step(st, script, 0, flags, checker, sv)
+        ref_ok = True
+    except cs.Fail as e:
+        ref_ok = False
+    imp("pycoin.coins.bitcoin.VM").secp256k1_generator = _OracleGen(oracle)
+    vm = _mk_vm(ctx, script, stack, [], 0, 0, flags, op_count, _TxCtx(), sighash_f=lambda signature_type, blobs, vm_: 1 + signature_type)
+    try:
+        vm.eval_instruction()
+        ok = True
+    except ScriptError:
+        ok = False
+    except Exception as e:
+        ctx.note("pycoin raised %r" % (e,))
+        ctx.check(False, "signature-opcode-raises-only-script-errors")
+    if not ok:
+        ctx.check(not ref_ok, "fails-only-when-consensus-fails")
+        return
+    ctx.check(ref_ok, "succeeds-only-when-consensus-succeeds")
+    ctx.check(_stacks_equal(vm.stack, st.stack), "stack-equals-consensus-stack")
+    ctx.check(vm.op_count == st.op_count, "op-count-equals")
+
+
+def _sig_obligations(tier):
+    T = tier == "thorough"
+    obs = []
+    for op, nm in ((172, "CHECKSIG"), (173, "CHECKSIGVERIFY")):
+        for svn in ("witness_v0", "base"):
+            for kl in (33, 65) + ((0, 5, 34) if op == 172 else ()):
+                obs.append(Ob("C03.sig.%s.%s.key%d" % (nm, svn, kl), sigops, "%s (%s): DER / empty / 2-byte signature, %d-byte key with prefix byte in {0,2..7}, hash-type byte in 6 representatives, all 16 flags, oracle validity" % (nm, svn, kl),
+                              dict(op=op, n_keys=1, n_sigs=1, sigversion=svn, key_len=kl, short_sig=True), weight=2, max_paths=100000))
+    shapes = [(0, 0), (1, 0), (1, 1), (2, 1), (2, 2), (3, 1), (3, 2)] + ([(3, 3), (4, 2)] if T else [])
+    for nk, ns in shapes:
+        for op, nm in ((174, "CHECKMULTISIG"), (175, "CHECKMULTISIGVERIFY")):
+            if op == 175 and (nk, ns) not in ((1, 1), (2, 1), (3, 2)):
+                continue
+            for svn in ("witness_v0", "base"):
+                if svn == "base" and not (T or (nk, ns) in ((2, 1), (2, 2), (3, 2))):
+                    continue
+                for kl in (33, 65):
+                    if kl == 65 and not (T or (nk, ns) in ((1, 1), (2, 1))):
+                        continue
+                    obs.append(Ob("C03.sig.%s.%s.%dof%d.key%d" % (nm, svn, ns, nk, kl), sigops,
+                                  "%s (%s) with %d signatures and %d keys (%d bytes; first key's prefix in 3 classes): every arrangement of DER / empty signatures, every validity "
+                                  "matrix, dummy element empty or 1 byte, every subset of STRICTENC/DERSIG/NULLFAIL/NULLDUMMY/WITNESS_PUBKEYTYPE, op count at 0 and at the limit" % (nm, svn, ns, nk, kl),
+                                  dict(op=op, n_keys=nk, n_sigs=ns, sigversion=svn, key_len=kl, short_sig=(nk <= 1), lean=True), weight=1 + nk * ns, max_paths=400000, deadline_s=600))
+    return obs
+
+
 def obligations(tier):   # noqa: F811
-    return _base_obligations(tier) + _more_obligations(tier)
+    return _base_obligations(tier) + _more_obligations(tier) + _sig_obligations(tier)
